@@ -225,6 +225,13 @@ class Parser:
                         and t.value.upper() not in SYMBOL_ATTRIBUTES
                     ):
                         t.type = "UNQUOTED_STRING_VALUE"
+                    # NORMAL after STYLE is always a value (QUERYMAP STYLE NORMAL), not a STYLE attribute
+                    elif (
+                        getattr(ip.parser_state.value_stack[-1], "type", None)
+                        == "STYLE"
+                        and t.value.upper() == "NORMAL"
+                    ):
+                        t.type = "UNQUOTED_STRING_VALUE"
                 elif t.type == "GRID":
                     # Unquoted 'GRID' coming after NAME is always a value, not a composite type
                     if (
